@@ -10,7 +10,7 @@ LEVEL_TEXT = ("Every generated run's stream is checked by an automaton: RUNNING/
 LEVEL_NOTE = "Trusted: the stream consumer (real handler.stream_events), virtual clock. 'Unless the run ends first' = the handler finished."
 DESIGN_REF = "§5 C35"
 RULE = "case = generated program (fan / wait / hitl_ret / outcomes) + schedule; distinct = tick-order signature hash; non-trivial = a PREPARING was seen or an InputRequiredEvent returned"
-REQUIRED_REACH = ["ssc_event", "preparing_seen", "input_required_returned", "family_fan", "family_hitl_ret", "family_collect", "family_syncfan", "verbose_workflow"]
+REQUIRED_REACH = ["ssc_event", "preparing_seen", "input_required_returned", "family_fan", "family_hitl_ret", "family_collect", "family_syncfan", "verbose_workflow", "resumed_run_with_pending_work"]
 ASSUMPTIONS = []
 FAMILIES = [("fan", 3), ("wait", 1), ("hitl_ret", 2), ("outcomes", 1), ("collect", 2), ("syncfan", 1)]
 
@@ -41,9 +41,58 @@ def run_shard(shard):
             # Workflow(verbose=True): a logging decorator sits between the control loop and the published stream
             case["spec"]["verbose"] = True
             acc.hit("verbose_workflow")
-        engine_check.run_one(case, acc, _oracles(), _nontrivial)
+        engine_check.run_one(case, acc, _oracles(), _nontrivial, post=_resumed_phase)
     return acc.to_dict()
 
 
+def _resumed_phase(case, tr0, acc):
+    """the same telemetry rules on a run RESTORED from a serialized context that still holds running / queued work: the invocations
+    re-initiated at start-up are step invocations like any other (RUNNING, or PREPARING then RUNNING, before their NOT_RUNNING)"""
+    import json
+    import random
+
+    from vf import engine_run, oracles
+    from workflows import Context
+
+    rnd = random.Random(case["seed"] ^ 0x35AA)
+    if rnd.random() > 0.3 or len(tr0.ticks) < 4 or case["spec"].get("responders") or any(s_.get("sync") for s_ in case["spec"]["steps"]):
+        return
+    _tr, snaps = engine_run.run_with_snapshots(case["spec"])
+    cands = [e for e in snaps if e.get("snap") and e["snap"].get("is_running") and any(w["in_progress"] or w["queue"] for w in e["snap"]["workers"].values())]
+    if not cands:
+        return
+    ent = rnd.choice(cands)
+    snap = ent["snap"]
+    spec2 = {**json.loads(json.dumps(case["spec"])), "uid_base": 1000, "externals": []}
+    tr2 = engine_run.run_case(spec2, ctx_factory=lambda w: Context.from_dict(w, json.loads(json.dumps(snap))), start=False)
+    acc.case()
+    if tr2.errors:
+        return
+    acc.hit("resumed_run_with_pending_work")
+    if any(len(w["queue"]) for w in snap["workers"].values()):
+        acc.hit("resumed_run_with_queued_work")
+
+    class _A:
+        def __getattr__(self, n):
+            return getattr(acc, n)
+
+        def violation(self, sig, what, c):
+            acc.violation({**sig, "resumed": True}, f"[run restored from a snapshot taken at yield {ent['k']}] " + what, {"case": {**case, "snap": snap, "k": ent["k"]}, "phase": "resumed"})
+
+    oracles.c35(tr2, _A(), {"case": case})
+
+
 def replay(rp):
+    if rp["case"].get("phase") == "resumed":
+        import json
+
+        from vf import engine_run, oracles
+        from vf.common import Acc
+        from workflows import Context
+
+        c = rp["case"]["case"]
+        acc = Acc()
+        tr2 = engine_run.run_case({**c["spec"], "uid_base": 1000, "externals": []}, ctx_factory=lambda w: Context.from_dict(w, json.loads(json.dumps(c["snap"]))), start=False)
+        oracles.c35(tr2, acc, rp["case"])
+        return acc.to_dict()
     return engine_check.replay(rp, _oracles())
